@@ -182,4 +182,72 @@ theorem frame_parseApplied (name : String) (hn : key name ≠ key "obstypes") (v
   · have : (key name == key "obstypes") = false := by simp [hn]
     simp [isPrefix, List.isPrefixOf, this]
 
+theorem MSame_setdefault (m : Meta) (q : List Str) (h : Unprot q) : MSame m (m.setdefaultDict q) :=
+  fun p hp _ => get_setdefault_ne m q p (h p hp)
+
+theorem unprot_len4 (a b c d : Str) : Unprot [a, b, c, d] := by
+  intro p hp
+  rcases hp with rfl | ⟨sy, rfl⟩ <;> simp
+
+theorem foldl_error {α} (step : Except Err Meta → α → Except Err Meta) (herr : ∀ e x, step (.error e) x = .error e) :
+    ∀ (l : List α) (e : Err), l.foldl step (.error e) = .error e := by
+  intro l
+  induction l with
+  | nil => intro e; rfl
+  | cons x l ih => intro e; rw [List.foldl_cons, herr, ih]
+
+theorem foldl_except_MSame {α} (step : Except Err Meta → α → Except Err Meta)
+    (hstep : ∀ m x m', step (.ok m) x = .ok m' → MSame m m') (herr : ∀ e x, step (.error e) x = .error e) :
+    ∀ (l : List α) (m0 m' : Meta), l.foldl step (.ok m0) = .ok m' → MSame m0 m' := by
+  intro l
+  induction l with
+  | nil => intro m0 m' h; simp only [List.foldl_nil, Except.ok.injEq] at h; subst h; exact MSame.refl _
+  | cons x l ih =>
+    intro m0 m' h
+    rw [List.foldl_cons] at h
+    cases hx : step (.ok m0) x with
+    | error e => rw [hx, foldl_error step herr] at h; simp at h
+    | ok m1 => rw [hx] at h; exact (hstep m0 x m1 hx).trans (ih m1 m' h)
+
+theorem frame_parseGlonassSlot (v : Values) (s s' : State) (h : parseGlonassSlot v s = .ok s') : Frame s s' := by
+  unfold parseGlonassSlot at h
+  obtain ⟨m, hm, h⟩ := bind_ok' h
+  simp only [pure, Except.pure, Except.ok.injEq] at h
+  subst h
+  apply frame_meta
+  refine (MSame_setdefault s.metaD [key "glonass_slot"] (unprot_single (key "glonass_slot") (by decide))).trans ?_
+  refine foldl_except_MSame _ ?_ ?_ _ _ _ hm
+  · intro m0 x m1 hx
+    simp only [bind, Except.bind, pure, Except.pure] at hx
+    split at hx
+    · simp only [Except.ok.injEq] at hx; subst hx; exact MSame.refl _
+    · split at hx
+      · obtain ⟨i, _, hx⟩ := bind_ok' hx
+        simp only [pure, Except.pure, Except.ok.injEq] at hx
+        subst hx
+        exact MSame_set _ _ _ (unprot_pair _ _ (by decide))
+      · simp [throw, throwThe, MonadExcept.throw, MonadExceptOf.throw] at hx
+  · intro e x; rfl
+
+theorem frame_parseGlonassBias (v : Values) (s s' : State) (h : parseGlonassBias v s = .ok s') : Frame s s' := by
+  unfold parseGlonassBias at h
+  obtain ⟨m, hm, h⟩ := bind_ok' h
+  simp only [pure, Except.pure, Except.ok.injEq] at h
+  subst h
+  apply frame_meta
+  refine (MSame_setdefault s.metaD [key "glonass_bias"] (unprot_single (key "glonass_bias") (by decide))).trans ?_
+  refine foldl_except_MSame _ ?_ ?_ _ _ _ hm
+  · intro m0 x m1 hx
+    simp only [bind, Except.bind, pure, Except.pure] at hx
+    split at hx
+    · simp only [Except.ok.injEq] at hx; subst hx; exact MSame.refl _
+    · split at hx
+      · obtain ⟨i, _, hx⟩ := bind_ok' hx
+        simp only [pure, Except.pure, Except.ok.injEq] at hx
+        subst hx
+        exact MSame_set _ _ _ (unprot_pair _ _ (by decide))
+      · simp [throw, throwThe, MonadExcept.throw, MonadExceptOf.throw] at hx
+  · intro e x; rfl
+
+
 end Midgard.Spec.Rinex3ObsFile
